@@ -847,3 +847,29 @@ M("r13-costing-guard-reordered-benign", ["C04"], "benign",
 M("r13-mark-decode-off-by-one", ["C04"], "break",
   [("yaep.c", "	*cost = -node->val.anode.cost - 1;", "	*cost = -node->val.anode.cost;")], "mark-codec")
 M("t1-start-rule-no-translation", ["C02"], "break", [("yaep.c", "	  rule->order[0] = 0;\n	  rule->trans_len = 1;", "	  rule->trans_len = 1;")], "start-rule-order")
+M("c10-fresh-eof-lookup-before-rules", ["C10"], "break",
+  [("yaep.c", "  grammar->axiom = grammar->end_marker = NULL;\n  while ((lhs = (*read_rule)", "  grammar->axiom = NULL;\n  grammar->end_marker = symb_find_by_repr (END_MARKER_NAME);\n  while ((lhs = (*read_rule)"),
+   ("yaep.c", "	  grammar->end_marker = symb_find_by_repr (END_MARKER_NAME);\n	  if (grammar->end_marker != NULL)", "	  if (grammar->end_marker != NULL)")], "C10-fresh")
+M("c10-fresh-direct-test-benign", ["C10"], "benign",
+  [("yaep.c", "	  grammar->end_marker = symb_find_by_repr (END_MARKER_NAME);\n	  if (grammar->end_marker != NULL)", "	  if (symb_find_by_repr (END_MARKER_NAME) != NULL)")])
+M("c10-fresh-rhs-guard-dropped", ["C10"], "break",
+  [("yaep.c", "	  if (symb == NULL)\n	    symb = symb_add_nonterm (*rhs);\n	  else if (symb == grammar->axiom", "	  if (symb == NULL || !symb->term_p)\n	    symb = symb_add_nonterm (*rhs);\n	  else if (symb == grammar->axiom")], "C10-fresh")
+M("r16-frontier-state-hop-cost", ["C06", "C07"], "break",
+  [("yaep.c", "				   back_to_frontier_move_cost,\n				   back_to_frontier_move_cost);", "				   back_to_frontier_move_cost,\n				   backward_move_cost);")], "R16-frontier-state")
+M("r16-frontier-state-local-benign", ["C06", "C07"], "benign",
+  [("yaep.c", "	      push_recovery_state (back_pl_frontier,\n				   back_to_frontier_move_cost,\n				   back_to_frontier_move_cost);", "	      {\n		int frontier_cost = back_to_frontier_move_cost;\n\n		push_recovery_state (back_pl_frontier, frontier_cost, frontier_cost);\n	      }")])
+M("r4i-mask-in-int", ["C01", "C06", "C12"], "break",
+  [("yaep.c", "  bit = ((term_set_el_t) 1) << (num % (CHAR_BIT * sizeof (term_set_el_t)));\n  changed_p", "  bit = 1 << (num % (CHAR_BIT * sizeof (term_set_el_t)));\n  changed_p")], "R4i")
+M("r4i-mask-and-form-benign", ["C01", "C06", "C12"], "benign",
+  [("yaep.c", "  bit = ((term_set_el_t) 1) << (num % (CHAR_BIT * sizeof (term_set_el_t)));\n  changed_p", "  bit = ((term_set_el_t) 1) << (num & (CHAR_BIT * sizeof (term_set_el_t) - 1));\n  changed_p")])
+M("c03-nil-empty-span-test", ["C02", "C03"], "break",
+  [("yaep.c", "		}		/* if (sit_rule->anode != NULL) */\n	      else if (sit->pos != 0)", "		}		/* if (sit_rule->anode != NULL) */\n	      else if (sit_orig != pl_ind)")], "C03-nil-empty")
+M("c03-nil-empty-rhs-len-benign", ["C02", "C03"], "benign",
+  [("yaep.c", "		}		/* if (sit_rule->anode != NULL) */\n	      else if (sit->pos != 0)", "		}		/* if (sit_rule->anode != NULL) */\n	      else if (sit_rule->rhs_len > 0)")])
+M("r27-revert-F40-cache-not-emptied", ["C07", "C12"], "break",
+  [("yaep.c", "		  empty_hash_table (set_term_lookahead_tab);\n", "")], "R27-goto-valid")
+M("r27-goto-valid-flush-after-callback-benign", ["C07", "C12"], "benign",
+  [("yaep.c", "#ifdef USE_SET_HASH_TABLE\n		  /* The recovery has replaced sets of the parsing list\n		     and may have moved pl_curr back: the places kept in\n		     the goto cache do not describe the list anymore.  */\n		  empty_hash_table (set_term_lookahead_tab);\n#endif\n", ""),
+   ("yaep.c", "				toks[stop].attr);\n		  continue;", "				toks[stop].attr);\n#ifdef USE_SET_HASH_TABLE\n		  empty_hash_table (set_term_lookahead_tab);\n#endif\n		  continue;")])
+M("r27-goto-valid-flush-other-table", ["C07", "C12"], "break",
+  [("yaep.c", "		  empty_hash_table (set_term_lookahead_tab);\n", "		  empty_hash_table (set_dists_tab);\n")], "R27-goto-valid")
